@@ -119,7 +119,7 @@ Proof.
   destruct (t_get k (h_tree h)) as [v|] eqn:E; [|reflexivity].
   destruct (get_vals (entry_ok tmax) k (h_tree h) v V E) as [(T & r & P & I) L].
   exists r. split; [exact P|]. split; [exact I|]. split; [exact T|]. split; [exact L|].
-  unfold crdt_visible. rewrite T. cbn [Z.ltb Z.compare]. rewrite P. reflexivity.
+  unfold crdt_visible. rewrite T. cbn [Z.eqb]. rewrite P. reflexivity.
 Qed.
 
 (* the entry a statement at time t >= every stored time leaves behind *)
